@@ -322,3 +322,27 @@ M('c06-asgi-port-unpacks-scope-server', 'C06', 'R15', 'falcon/asgi/request.py',
 # the memoised site loses its guard: the field is consumed on every access
 M('c06-asgi-server-consumed-on-every-access', 'C06', 'R15', 'falcon/asgi/request.py',
   "        if not self._asgi_server_cached:\n", "        if not self._asgi_server_cached or self.is_websocket:\n")
+
+# --------------------------------------------------------------------- R16
+# header emitters: each stored (name, value) leaves both stacks unchanged apart from the tabled ASGI byte encoding
+M('c06-asgi-latin1-helper-strips-value', 'C06', 'R16', 'falcon/util/misc.py',
+  "        result.append((key.encode('latin1'), value.encode('latin1')))\n",
+  "        result.append((key.encode('latin1'), value.strip().encode('latin1')))\n")
+M('c06-asgi-latin1-helper-collapses-line-folds', 'C06', 'R16', 'falcon/util/misc.py',
+  "        result.append((key.encode('latin1'), value.encode('latin1')))\n",
+  "        value = value.replace('\\r\\n', ' ')\n        result.append((key.encode('latin1'), value.encode('latin1')))\n")
+M('c06-wsgi-emitter-strips-value', 'C06', 'R16', 'falcon/response.py',
+  "        items = list(headers.items())\n", "        items = [(name, value.strip()) for name, value in headers.items()]\n")
+M('c06-asgi-emitter-inline-utf8', 'C06', 'R16', 'falcon/asgi/response.py',
+  "            items = _encode_items_to_latin1(headers)\n",
+  "            items = [(name.encode('latin1'), value.encode('utf-8')) for name, value in headers.items()]\n")
+M('c06-asgi-extra-headers-lowercased-value', 'C06', 'R16', 'falcon/asgi/response.py',
+  "                (n.encode('ascii'), v.encode('ascii')) for n, v in self._extra_headers\n",
+  "                (n.encode('ascii'), v.lower().encode('ascii')) for n, v in self._extra_headers\n",
+  also=('C15',))  # C15 R3 (three stores, two emitters) compares the extra-header / cookie items of the emitters itself
+M('c06-asgi-cookie-text-stripped-of-trailing-semicolon', 'C06', 'R16', 'falcon/asgi/response.py',
+  "                (b'set-cookie', c.OutputString().encode('ascii'))\n",
+  "                (b'set-cookie', c.OutputString().rstrip('; ').encode('ascii'))\n", also=('C15',))
+M('c06-asgi-latin1-helper-conditional-title-case-name', 'C06', 'R16', 'falcon/util/misc.py',
+  "        result.append((key.encode('latin1'), value.encode('latin1')))\n",
+  "        if '-' in key:\n            key = key.title()\n        result.append((key.encode('latin1'), value.encode('latin1')))\n")
